@@ -90,7 +90,7 @@ def run(chk):
     chk.section('_format_value', format_value, mod)
     chk.section('Chunk.write', chunk_layout, mod)
     chk.section('Loop.write', loop_layout, mod)
-    native_checks(chk)
+    chk.section('escaping, comments, block names (real helpers)', lambda c_: native_checks(c_))
     chk.section('high-level content assembly', content_assembly)
     bounded_documents(chk)
 
@@ -248,18 +248,27 @@ def native_checks(chk):
     chk.decided(f'{MOD}:_encode_non_ascii/output-is-ASCII,identity-on-ASCII[{len(samples)} samples]', not bad, detail=str(bad))
     comments = ['', 'one line', 'two\nlines', 'cr\rline', 'crlf\r\nline', 'form\ffeed', 'vt\x0bx', 'trailing\n', '\nleading', 'a\n\nb', '_tag value', 'data_x', "'q'",
                 'loop_\n_a\n1', ';text\n;', 'x\x1cy', 'x\x1dy', 'x\x1ey']
+    # through the public writer: a comment at the top of the file and a comment on a chunk; every physical line of it starts with '#',
+    # and the independent parser sees exactly the one pair that was supplied (nothing of the comment leaks into the data)
+    from contracts.cif_ref import parse
     bad = []
     for c in comments:
         f = io.StringIO()
-        cif._write_comment(f, cif._encode_non_ascii(c))
-        out = f.getvalue()
-        lines = out.split('\n')
+        try:
+            cif.save_cif(f, cif.Block('b', [cif.Chunk({'my.tag': 'value'}, comment=c)]), comment=c)
+            out = f.getvalue()
+            blocks, _ = parse(out)
+        except Exception as e:  # noqa: BLE001
+            bad.append((c, f'{type(e).__name__}: {e}'[:80]))
+            continue
+        pairs = [it for it in blocks[0]['items'] if it[0] == 'pair']
+        loops = [it for it in blocks[0]['items'] if it[0] == 'loop' and not it[1][0].startswith('audit_conform')]
         phys = [ln for chunk in out.split('\n') for ln in chunk.split('\r')]
-        if out and (not out.endswith('\n') or any(ln and not ln.startswith('#') for ln in phys[:-1])):
-            bad.append(c)
-        if not c and out:
-            bad.append(c)
-    chk.decided(f'{MOD}:_write_comment/every-physical-line-starts-with-#[{len(comments)} comments]', not bad, detail=str(bad))
+        allowed = lambda ln: ln == '' or ln.startswith('#') or ln.startswith('data_b') or ln.startswith('_my.tag') or ln.startswith('_audit_conform') \
+            or ln.startswith('loop_') or ln.split(' ')[0] in ('coreCIF', 'pdCIF')
+        if [(it[1], it[2]) for it in pairs] != [('my.tag', 'value')] or loops or not all(allowed(ln) for ln in phys):
+            bad.append((c, 'comment leaks into the data or a line of it does not start with #'))
+    chk.decided(f'{MOD}:_write_comment/every-physical-line-starts-with-#[{len(comments)} comments]', not bad, detail=str(bad[:3]))
     # block names
     chk.function(MOD, 'Block.name')
     bad = []
